@@ -10,7 +10,7 @@ ID = 'C15'
 LEVEL = 'model_checking'
 RULE = ('cassette A in every combination of read_only x transient x key prefix {none, a, ab, a/b} and a second writable cassette B on a '
         'neighbouring prefix share one fake bucket pre-loaded with recordings of all four prefixes and foreign objects (also directly under '
-        'A\'s root); every call history up to the depth bound over {A: create, save new, save again (modified), get, get metadata, list, '
+        'A\'s root); every call history up to the depth bound over {A: create, save new, save again (modified), get, get metadata, list, fetch of half-present recordings, '
         'close, with-exit; B: save new, close}; calls that raise are continued past; after EVERY bucket mutation of EVERY save (crash '
         'points) every id any view can list must be completely fetchable. states = distinct bucket key sets. Non-trivial = history with a '
         'mutation attempt.')
@@ -20,7 +20,7 @@ import re
 _HEX = re.compile(r'[0-9a-f]{32}')
 ROOT = 'tape_recorder_recordings/'
 PREFIXES = ['', 'a', 'ab', 'a/b']
-LETTERS = ['A.create', 'A.save', 'A.resave', 'A.get', 'A.meta', 'A.list', 'A.close', 'A.with', 'B.save', 'B.close', 'A.saveagain', 'A.withraise', 'A.metaorphan']
+LETTERS = ['A.create', 'A.save', 'A.resave', 'A.get', 'A.meta', 'A.list', 'A.close', 'A.with', 'B.save', 'B.close', 'A.saveagain', 'A.withraise', 'A.metaorphan', 'A.getdangling']
 
 
 def bounds(tier):
@@ -33,7 +33,7 @@ def gen_cases(tier, seed):
         for btr in (False, True):
             for n in range(1, depth + 1):
                 for h in itertools.product(range(len(LETTERS)), repeat=n):
-                    if n > 1 and all(LETTERS[i] in ('A.get', 'A.meta', 'A.list') for i in h):
+                    if n > 1 and all(LETTERS[i] in ('A.get', 'A.meta', 'A.list', 'A.metaorphan', 'A.getdangling') for i in h):
                         continue
                     if n == depth and not any(LETTERS[i] in ('A.save', 'A.resave', 'A.close', 'A.with', 'B.close') for i in h):
                         continue
@@ -110,6 +110,9 @@ def run_case(case):
     import zlib
     orphan = 'Op/20200101/%032x' % 0xdead
     st.objs[own_roots(prefix)[0] + orphan] = (zlib.compress(b'{"k": ["orphan"], "_metadata": {"owner": "crashed"}}'), st.clock(), {})
+    # ... and one whose full object is gone while its metadata object is still there (e.g. an interrupted clean-up), in a category of its own
+    dangling = 'Dangling/20200101/%032x' % 0xbeef
+    st.objs[own_roots(prefix)[1] + dangling] = (b'{"owner": "half-removed"}', st.clock(), {})
     for key in ('unrelated/x', ROOT + 'NOTES.txt', ROOT + kp + 'NOTES.txt', ROOT + kp + 'fullish/x', ROOT + kp + 'metadata_backup/x', 'tape_recorder_recordingsX/full/y'):
         cl.put_object('bucket', key, b'foreign ' + key.encode())
     cat = case.get('cat', 'Op')
@@ -181,6 +184,12 @@ def run_case(case):
                 from playback.exceptions import NoSuchRecording
                 try:
                     c.get_recording_metadata(orphan)
+                except NoSuchRecording:
+                    pass
+            elif op == 'getdangling':
+                from playback.exceptions import NoSuchRecording
+                try:
+                    c.get_recording(dangling)
                 except NoSuchRecording:
                     pass
             elif op == 'withraise':
